@@ -113,6 +113,18 @@ func c17Program(t *rapid.T) string {
 	if rapid.IntRange(0, 2).Draw(t, "consts") == 0 {
 		constify(t, f, c16Auto)
 	}
+	if rapid.IntRange(0, 7).Draw(t, "dupnames") == 0 {
+		// several different duplicated names: which one is reported must not vary from run to run
+		for _, n := range []string{"DupAlpha", "DupBeta", "DupGamma"} {
+			for k := 0; k < 2; k++ {
+				if rapid.Bool().Draw(t, "duptext") {
+					f.Tops = append(f.Tops, &Top{K: "text", Text: &TextStmt{Name: n, Val: &TextVal{Lit: &StrLit{Parts: []string{n}}}}})
+				} else {
+					f.Tops = append(f.Tops, &Top{K: "movement", Movement: &Movement{Name: n, Steps: []*Step{{Name: "walk_up"}}}})
+				}
+			}
+		}
+	}
 	src := Canon(f)
 	if rapid.IntRange(0, 3).Draw(t, "break") == 0 {
 		// make it invalid somewhere: errors must be repeatable too
@@ -151,8 +163,15 @@ func emitTwice(c *Comp) (v *Violation) {
 	if err != nil {
 		return nil
 	}
-	for i, opt := range []bool{false, true, false} {
-		out, err := emitter.New(prog, opt, o.LineMarkers, o.Path).Emit()
+	same := emitter.New(prog, true, o.LineMarkers, o.Path)
+	for i, opt := range []bool{false, true, false, true, true} {
+		var out string
+		var err error
+		if i >= 3 {
+			out, err = same.Emit() // the same Emitter value, used twice
+		} else {
+			out, err = emitter.New(prog, opt, o.LineMarkers, o.Path).Emit()
+		}
 		o2 := o
 		o2.Optimize = opt
 		fresh := Compile(c.Src, o2)
@@ -346,6 +365,21 @@ func checkC17Context(c *C17Context) *Violation {
 		return viol("crash", "%s\n--- source\n%s", full.Describe(), src)
 	}
 	if full.Err != nil {
+		// every statement accepted alone (names are unique across statements in the generated domain) but the file rejected?
+		allAlone := true
+		var cs []*Top
+		for _, t := range c.File.Tops {
+			if t.K == "const" {
+				cs = append(cs, t)
+				continue
+			}
+			if r := Compile(Canon(&File{Tops: append(append([]*Top{}, cs...), t)}), o); !r.OK() {
+				allAlone = false
+			}
+		}
+		if allAlone {
+			return viol("file-rejected-parts-accepted", "every top-level statement compiles alone, but the file is rejected: %v\n--- file\n%s", full.Err, src)
+		}
 		st.Label("rejected")
 		st.Note("last_rejection", clip(full.Err.Error()+"\n"+src, 800))
 		return nil
@@ -390,6 +424,14 @@ func genC17Context(t *rapid.T) *C17Context {
 	f := GenFile(t, cfg)
 	if rapid.Bool().Draw(t, "const") {
 		f.Tops = append([]*Top{{K: "const", Const: &Const{Name: "A3", Val: []string{"7", "+", "1"}}}}, f.Tops...)
+	}
+	// a label spelled like a generated sub-label of another script is an ordinary label
+	if scripts := f.Scripts(); len(scripts) >= 2 && rapid.IntRange(0, 2).Draw(t, "foreignsublabel") == 0 {
+		a := rapid.IntRange(0, len(scripts)-1).Draw(t, "lblscript")
+		b := (a + 1 + rapid.IntRange(0, len(scripts)-2).Draw(t, "lblother")) % len(scripts)
+		st := sLabel(fmt.Sprintf("%s_%d", scripts[b].Name, rapid.IntRange(1, 6).Draw(t, "lbln")))
+		pos := rapid.IntRange(0, len(scripts[a].Body.Stmts)).Draw(t, "lblpos")
+		scripts[a].Body.Stmts = append(scripts[a].Body.Stmts[:pos], append([]*Stmt{st}, scripts[a].Body.Stmts[pos:]...)...)
 	}
 	// formatted texts that share words (also words with control codes whose width depends on the font)
 	// under different fonts and line lengths: formatting one text must not depend on the others
